@@ -32,7 +32,8 @@ From Delb.Gen Require GenDoc.
 From Delb.Gen Require GenPretty.
 From Delb.Xml Require Import Doc DocFacts DocGenFacts DocWriterFacts.
 From Delb.Ns Require Namespaces Prefixes PrefixFacts.
-From Delb.Xml Require Tokens DocPlain DocPlainFacts.
+From Delb.Xml Require Tokens DocPlain DocPlainFacts DocPretty DocPrettyFacts.
+From Delb.Ws Require Reduce Pretty Wrap WsVariant SimplePP WrapTextOnly.
 Import ListNotations.
 Open Scope N_scope.
 
@@ -190,6 +191,101 @@ Theorem C12_roundtrip_str_plain : forall nl fo d,
 Proof. exact DocPlainFacts.roundtrip_str_plain. Qed.
 Print Assumptions C12_roundtrip_str_plain.
 
+(* ------------------------------------------------------------------------------------------ *)
+(* the formatting serializers plugged in (chunk models of Ws/Pretty.v, width = 0, and Ws/Wrap.v, width > 0):
+   H_root is replaced by what C03 provides.  C03_width0 / C03_wrapped_real say that reducing the tree a
+   re-parse SEES (`seen c`) gives the reduced root back; accordingly the statement is: re-reading the written
+   bytes and reducing whitespace (ParserOptions(reduce_whitespace=True)) gives the document back.
+   Hypotheses left: H_codec, and the ONE bridging hypothesis
+     H_render_seen  forall fo t rest, fmt_root_ok fo t ->
+                    ref_read (render (fmt_chunk fo t) ++ rest) = Some (merge_tree (seen (fmt_chunk fo t)), rest)
+   "the reference reader applied to `render c` yields `seen c`" (with what follows the element handed back).
+   It is not proved in general (it needs a string-level reader proof for the formatted start tags); it is
+   instantiated by computation below with the reader built from C02's lexer and parser
+   (C12_example_render_seen) and tied on every run by C03's correspondence check, which compares `seen` with
+   what the real parser makes of the real output.  fmt_root_ok = the premises of C03 (a tag node, reduced, an
+   indentation of space/tab/newline; for width > 0: no newline in the indentation, width >= 1). *)
+Theorem C12_root_formatted : forall fo t,
+  DocPrettyFacts.fmt_root_ok fo t -> Reduce.reduce_model (DocPretty.norm_fmt fo t) = t.
+Proof. exact DocPrettyFacts.fmt_transparent. Qed.
+Print Assumptions C12_root_formatted.
+
+Definition H_render_seen_for (ref_read : str -> option (node * str)) : Prop :=
+  forall fo t rest, DocPrettyFacts.fmt_root_ok fo t ->
+    ref_read (Pretty.render (DocPretty.fmt_chunk fo t) ++ rest)
+    = Some (Merge.merge_tree (Pretty.seen (DocPretty.fmt_chunk fo t)), rest).
+
+Theorem C12_roundtrip_formatted :
+  forall (bytes : Type) (supported : str -> bool) (encode : str -> str -> option bytes) (decode : bytes -> option str)
+         (ref_read : str -> option (node * str)),
+    (forall enc body b, supported enc = true ->
+        encode enc (decl_of enc ++ body) = Some b -> decode b = Some (decl_of enc ++ body)) ->
+    H_render_seen_for ref_read ->
+    forall enc ls nl fo d b,
+      supported enc = true -> label_ok enc = true -> linesep_ok ls ->
+      doc_ok d = true -> DocPrettyFacts.fmt_root_ok fo (root d) ->
+      root_shape (DocPretty.ser_root_fmt fo (root d)) = true -> no_cr (DocPretty.ser_root_fmt fo (root d)) = true ->
+      doc_write DocPretty.fmt_kind DocPretty.ser_root_fmt encode ls enc nl fo d = Some b ->
+      DocPretty.reduce_read (doc_read ref_read decode b) = Ok (Some (upper enc), d).
+Proof. exact DocPrettyFacts.roundtrip_bytes_fmt. Qed.
+Print Assumptions C12_roundtrip_formatted.
+
+(* the two instances by name: PrettySerializer (width = 0) ... *)
+Theorem C12_roundtrip_pretty :
+  forall (bytes : Type) (supported : str -> bool) (encode : str -> str -> option bytes) (decode : bytes -> option str)
+         (ref_read : str -> option (node * str)),
+    (forall enc body b, supported enc = true ->
+        encode enc (decl_of enc ++ body) = Some b -> decode b = Some (decl_of enc ++ body)) ->
+    H_render_seen_for ref_read ->
+    forall enc ls nl ind align d b,
+      supported enc = true -> label_ok enc = true -> linesep_ok ls -> doc_ok d = true ->
+      is_tag (root d) = true -> WsVariant.reduced (root d) -> SimplePP.ws_indent ind = true ->
+      root_shape (Pretty.pretty ind align (root d)) = true -> no_cr (Pretty.pretty ind align (root d)) = true ->
+      doc_write DocPretty.fmt_kind DocPretty.ser_root_fmt encode ls enc nl (DocPretty.FPretty ind align) d = Some b ->
+      DocPretty.reduce_read (doc_read ref_read decode b) = Ok (Some (upper enc), d).
+Proof.
+  intros bytes supported encode decode ref_read Hc Hb enc ls nl ind align d b Hs He Hl Hd Ht Hr Hi Hsh Hcr Hw.
+  apply (DocPrettyFacts.roundtrip_bytes_fmt bytes supported encode decode ref_read Hc Hb enc ls nl
+           (DocPretty.FPretty ind align) d b); try assumption.
+  repeat split; assumption.
+Qed.
+Print Assumptions C12_roundtrip_pretty.
+
+(* ... and TextWrappingSerializer (width >= 1) *)
+Theorem C12_roundtrip_wrapped :
+  forall (bytes : Type) (supported : str -> bool) (encode : str -> str -> option bytes) (decode : bytes -> option str)
+         (ref_read : str -> option (node * str)),
+    (forall enc body b, supported enc = true ->
+        encode enc (decl_of enc ++ body) = Some b -> decode b = Some (decl_of enc ++ body)) ->
+    H_render_seen_for ref_read ->
+    forall enc ls nl ind align width d b,
+      supported enc = true -> label_ok enc = true -> linesep_ok ls -> doc_ok d = true ->
+      is_tag (root d) = true -> WsVariant.reduced (root d) ->
+      SimplePP.ws_indent ind = true -> WrapTextOnly.no_lf ind = true -> (1 <= width)%Z ->
+      root_shape (Wrap.wrap_str ind align width (root d) []) = true ->
+      no_cr (Wrap.wrap_str ind align width (root d) []) = true ->
+      doc_write DocPretty.fmt_kind DocPretty.ser_root_fmt encode ls enc nl (DocPretty.FWrap ind align width) d = Some b ->
+      DocPretty.reduce_read (doc_read ref_read decode b) = Ok (Some (upper enc), d).
+Proof.
+  intros bytes supported encode decode ref_read Hc Hb enc ls nl ind align width d b Hs He Hl Hd Ht Hr Hi Hn Hwd Hsh Hcr Hw.
+  assert (E : DocPretty.ser_root_fmt (DocPretty.FWrap ind align width) (root d) = Wrap.wrap_str ind align width (root d) []).
+  { unfold DocPretty.ser_root_fmt, DocPretty.fmt_chunk, Wrap.wrap_str. destruct (Wrap.wrap_real ind align width (root d) []); reflexivity. }
+  apply (DocPrettyFacts.roundtrip_bytes_fmt bytes supported encode decode ref_read Hc Hb enc ls nl
+           (DocPretty.FWrap ind align width) d b); try assumption; try (rewrite E; assumption).
+  repeat split; assumption.
+Qed.
+Print Assumptions C12_roundtrip_wrapped.
+
+Theorem C12_roundtrip_str_formatted :
+  forall (ref_read : str -> option (node * str)), H_render_seen_for ref_read ->
+    forall nl fo d,
+      doc_ok d = true -> DocPrettyFacts.fmt_root_ok fo (root d) ->
+      root_shape (DocPretty.ser_root_fmt fo (root d)) = true -> no_cr (DocPretty.ser_root_fmt fo (root d)) = true ->
+      DocPretty.reduce_read (parse_doc ref_read (nl_in (doc_str DocPretty.fmt_kind DocPretty.ser_root_fmt nl fo d)))
+      = Ok (Some (upper L_UTF8), d).
+Proof. exact DocPrettyFacts.roundtrip_str_fmt. Qed.
+Print Assumptions C12_roundtrip_str_formatted.
+
 (* the tie to the source: the writer calls of Document.__serialize, str() of comments and PIs and the
    comment validator, as regenerated from /repo on this run (Gen/GenDoc.v), are what the model uses *)
 Theorem C12_generated_chunks : forall k enc pro rootc epi,
@@ -215,6 +311,10 @@ Proof. exact comment_ok_generated. Qed.
 Print Assumptions C12_generated_comment_ok.
 
 (* ------------------------------------------------------------------------------------------ *)
+(* list equality as a boolean, for the computed examples *)
+Fixpoint forallb2_eq (a b : list N) : bool :=
+  match a, b with [], [] => true | x :: a', y :: b' => (N.eqb x y && forallb2_eq a' b')%bool | _, _ => false end.
+
 (* non-vacuity: the hypotheses are satisfiable.  The toy root layer (elements without content,
    `<name/>`) and the toy codecs ("ascii" refuses non-ASCII, identity otherwise) satisfy H_root and
    H_codec, so the theorems apply to every document with such a root and any prologue / epilogue. *)
@@ -299,3 +399,37 @@ Proof.
   { split; [repeat constructor|]. eexists. vm_compute. reflexivity. }
   split; [intros p n []|]. split; [apply PrefixFacts.default_order_ok|vm_compute; reflexivity].
 Qed.
+
+(* the formatting serializers on a real tree (mixed content, an attribute, a comment), with the reader built from
+   C02's lexer and parser as reference reader: the bridging hypothesis holds there by computation, and so does
+   the whole document round trip (written, CRLF-translated, read back, reduced) *)
+Definition ex_fmt_root : node :=
+  Tag [] [114] [([], [107], [118; 32; 119])]
+      [Text [97; 97; 32; 98; 98; 32]; Tag [] [105] [] [Text [99; 99]]; Text [32; 100; 100; 32; 101; 101; 101; 32; 102];
+       Comment [99]; Tag [] [120] [] []].
+Definition ex_fmt_doc : doc := {| prologue := prologue ex_doc; root := ex_fmt_root; epilogue := epilogue ex_doc |}.
+Definition ex_fmts : list DocPretty.fmt_opts :=
+  [DocPretty.FPretty [SP; SP] false; DocPretty.FPretty [9] true; DocPretty.FPretty [] false;
+   DocPretty.FWrap [SP; SP] false 5%Z; DocPretty.FWrap [] true 12%Z; DocPretty.FWrap [9] false 40%Z].
+Example C12_example_render_seen :
+  forallb (fun fo =>
+    match DocPlain.read_root_plain (Pretty.render (DocPretty.fmt_chunk fo ex_fmt_root) ++ [LF; 60; 33; 45; 45; 45; 45; 62]) with
+    | Some (n, rest) => (N.eqb (N.of_nat (length rest)) 8
+                         && Compare_dec.leb 1 (length (Encode.enc_node n))
+                         && forallb2_eq (Encode.enc_node n)
+                              (Encode.enc_node (Merge.merge_tree (Pretty.seen (DocPretty.fmt_chunk fo ex_fmt_root)))))%bool
+    | None => false
+    end) ex_fmts = true.
+Proof. vm_compute. reflexivity. Qed.
+Example C12_example_formatted :
+  forallb (fun fo =>
+    match doc_write DocPretty.fmt_kind DocPretty.ser_root_fmt toy_encode [LF] L_UTF8 NlCRLF fo ex_fmt_doc with
+    | Some b => forallb2_eq (enc_parse (DocPretty.reduce_read (doc_read DocPlain.read_root_plain toy_decode b)))
+                            (enc_parse (Ok (Some [85; 84; 70; 45; 56], ex_fmt_doc)))
+    | None => false
+    end) ex_fmts = true
+  /\ forallb (fun fo => (root_shape (DocPretty.ser_root_fmt fo ex_fmt_root) && no_cr (DocPretty.ser_root_fmt fo ex_fmt_root))%bool) ex_fmts = true
+  /\ Reduce.reduce_model ex_fmt_root = ex_fmt_root
+  /\ DocPretty.ser_root_fmt (DocPretty.FPretty [SP; SP] false) ex_fmt_root
+     <> DocPretty.ser_root_fmt (DocPretty.FWrap [SP; SP] false 5%Z) ex_fmt_root.
+Proof. vm_compute. repeat split. discriminate. Qed.
